@@ -19,7 +19,7 @@ if [ -n "$DEMO" ]; then
   if go test -count=1 -run 'Demo|demo|Mutant|mutant|ZZ|Zz' . >/tmp/demo_clean.$$ 2>&1; then echo "demo-on-clean: PASS"; else echo "demo-on-clean: FAIL (demo is not valid)"; tail -5 /tmp/demo_clean.$$; fi
   rm -f zz_demo_test.go
 fi
-git apply "$DIFF" || { echo "patch does not apply"; exit 2; }
+git apply "$DIFF" 2>/dev/null || git apply --3way "$DIFF" || { echo "patch does not apply"; exit 2; }
 go build ./... || { echo "mutant does not compile"; exit 2; }
 if go test -count=1 ./... >/tmp/suite.$$ 2>&1; then echo "suite-with-mutant: PASS"; else echo "suite-with-mutant: FAIL (mutant is not valid)"; tail -5 /tmp/suite.$$; fi
 if [ -n "$DEMO" ]; then
